@@ -54,6 +54,8 @@ import uuid
 import xml.etree.ElementTree as ET
 import urllib.request as urllib_request
 import socket
+import os
+import threading
 from io import BytesIO
 import itertools
 from operator import attrgetter, itemgetter
@@ -536,10 +538,17 @@ class OFXClient:
             dtprofup_server = proftrnrs.profrs.dtprofup
             assert dtprofup is None or dtprofup <= dtprofup_server
 
-            # Cache the updated PROFRS sent by the server
+            # Cache the updated PROFRS sent by the server.  Write it to a
+            # temporary file first and rename that over the cache, so that a
+            # crash (or another process doing the same) never leaves a
+            # truncated or mixed cache file behind.
             response.seek(0)
-            with open(persistpath, "wb") as f:
+            tmppath = persistpath.with_name(
+                f"{persistpath.name}.{os.getpid()}.{threading.get_ident()}.tmp"
+            )
+            with open(tmppath, "wb") as f:
                 f.write(response.read())
+            os.replace(tmppath, persistpath)
 
         # Rewind PROFRS so it can be returned cleanly after having been parsed.
         response.seek(0)
